@@ -292,8 +292,11 @@ func runC16(c *Check, a *Analysis) {
 					}
 					// the target must be director's second result or the probed parameter
 					good := false
-					for _, bo := range p.origins(base) {
-						bo = p.canon(bo)
+					for _, raw := range p.origins(base) {
+						bo := p.canon(raw)
+						if prm, isP := raw.(*ssa.Parameter); isP && fname(prm.Parent()) == "(*Client).check" {
+							good = true
+						}
 						if e, isE := bo.(*ssa.Extract); isE {
 							if call, isC := e.Tuple.(*ssa.Call); isC && call.Common().StaticCallee() == dir && e.Index == 1 {
 								good = true
@@ -712,24 +715,16 @@ func runC17(c *Check, a *Analysis) {
 			}
 			return true, false
 		}
-		eachInstr(tu, func(in ssa.Instruction) {
-			cc, ok := in.(*ssa.Call)
-			if !ok || calleeName(cc) != "sync/atomic.StoreInt64" {
-				return
-			}
-			fr, _, ok := fieldOfAddr(cc.Call.Args[0])
-			if !ok || fr.Field != "latency" {
-				return
-			}
-			cst, isC := cc.Call.Args[1].(*ssa.Const)
-			g, _ := p.guardedBy(in, aliveFalse)
+		for _, la := range latencyAssignments(tu) {
+			cst, isC := la.val.(*ssa.Const)
+			g, _ := p.guardedBy(la.site, aliveFalse)
 			if isC && constStr(cst) == want {
 				n++
-				c.Ob("R-RESET-MAX", sc.key(tu, "latency=clientLatency on !Alive"), p.InstrPos(in), g, ifs(!g, "the maximum latency is stored outside the not-alive arm"))
+				c.Ob("R-RESET-MAX", sc.key(tu, "latency=clientLatency on !Alive"), p.InstrPos(la.site), g, ifs(!g, "the maximum latency is stored outside the not-alive arm"))
 			} else if g {
-				c.Ob("R-RESET-MAX", sc.key(tu, "not-alive arm stores the maximum"), p.InstrPos(in), false, "the not-alive arm stores "+describe(cc.Call.Args[1])+" instead of clientLatency")
+				c.Ob("R-RESET-MAX", sc.key(tu, "not-alive arm stores the maximum"), p.InstrPos(la.site), false, "the not-alive arm stores "+describe(la.val)+" instead of clientLatency")
 			}
-		})
+		}
 		if n == 0 {
 			c.Ob("R-RESET-MAX", sc.key(tu, "latency=clientLatency on !Alive"), tu.Pos(), false, "an unreachable target's latency is never reset to the maximum: least-time keeps picking it")
 		}
@@ -750,16 +745,16 @@ func runC17(c *Check, a *Analysis) {
 				sample = prm
 			}
 		}
-		eachInstr(tu, func(in ssa.Instruction) {
-			if !isLatStore(in) || sample == nil {
-				return
+		for _, la := range latencyAssignments(tu) {
+			if sample == nil {
+				break
 			}
-			if g, _ := p.guardedBy(in, aliveFalse); g {
-				return
+			if g, _ := p.guardedBy(la.site, aliveFalse); g {
+				continue
 			}
-			has := dependsOn(in.(*ssa.Call).Call.Args[1], sample, 12)
-			c.Ob("R-RESET-MAX", sc.key(tu, "alive arm records the sample"), p.InstrPos(in), has, ifs(!has, "the latency stored for a reachable target does not depend on the measured sample"))
-		})
+			has := dependsOn(la.val, sample, 12)
+			c.Ob("R-RESET-MAX", sc.key(tu, "alive arm records the sample"), p.InstrPos(la.site), has, ifs(!has, "the latency stored for a reachable target does not depend on the measured sample"))
+		}
 	}
 }
 
@@ -845,7 +840,7 @@ func runC18(c *Check, a *Analysis) {
 		})
 		var rng *MapOp
 		for _, m := range p.mapOps("Client", "pending") {
-			if m.Kind == "range" && m.Fn == cl {
+			if m.Kind == "range" && p.sameFn(m.Fn, cl) {
 				mm := m
 				rng = &mm
 			}
@@ -855,7 +850,7 @@ func runC18(c *Check, a *Analysis) {
 		if rng != nil {
 			okDel, okDone, okErr := false, false, false
 			for _, d := range p.mapOps("Client", "pending") {
-				if d.Kind == "delete" && d.Fn == cl && p.inLoop(d.Instr) {
+				if d.Kind == "delete" && p.sameFn(d.Fn, cl) && p.inLoop(d.Instr) {
 					okDel = true
 				}
 			}
@@ -1043,7 +1038,7 @@ func runC18(c *Check, a *Analysis) {
 		c.Ob("R-WAKE", "checkPending#called after every non-empty rebuild", cp.Pos(), fromRebuild, ifs(!fromRebuild, "waiters are not woken when a target becomes live"))
 		okDel, okDone := false, false
 		for _, d := range p.mapOps("Client", "pending") {
-			if d.Kind == "delete" && d.Fn == cp && p.inLoop(d.Instr) {
+			if d.Kind == "delete" && p.sameFn(d.Fn, cp) && p.inLoop(d.Instr) {
 				okDel = true
 			}
 		}
@@ -1104,7 +1099,7 @@ func runC18(c *Check, a *Analysis) {
 			for e := range edges {
 				okDel := false
 				for _, d := range p.mapOps("Client", "pending") {
-					if d.Kind == "delete" && d.Fn == fn && ls.Held(d.Instr, "Client.lock") {
+					if d.Kind == "delete" && p.sameFn(d.Fn, fn) && ls.Held(d.Instr, "Client.lock") {
 						if _, _, miss := p.reachFromBlock(fn, e.to, isReturnLike, func(x ssa.Instruction) bool { return x == d.Instr }, nil); !miss {
 							okDel = true
 						}
@@ -1204,6 +1199,11 @@ func runC18(c *Check, a *Analysis) {
 		for _, s := range p.fieldStoresIn(al, "target", "alive") {
 			cst, _ := s.Val.(*ssa.Const)
 			if cst == nil {
+				// the direct form: t.alive = err != ErrDial
+				if m, onTrue := isDial(s.Val); m {
+					c.Ob("R-ALIVE-FLAG", sc.key(al, "alive = (err != ErrDial)"), p.InstrPos(s), !onTrue, ifs(onTrue, "target.alive is set to err == ErrDial: unreachable targets count as alive and healthy ones as dead"))
+					continue
+				}
 				c.Ob("R-ALIVE-FLAG", sc.key(al, "alive="), p.InstrPos(s), false, "target.alive set from a non-constant")
 				continue
 			}
@@ -1225,6 +1225,8 @@ func runC18(c *Check, a *Analysis) {
 				} else {
 					hasTrue = true
 				}
+			} else if b, ok := s.Val.(*ssa.BinOp); ok && (isGlobalLoad(b.X, "ErrDial") || isGlobalLoad(b.Y, "ErrDial")) {
+				hasFalse, hasTrue = true, true
 			}
 		}
 		c.Ob("R-ALIVE-FLAG", "(*target).Alive#marks dead and alive", al.Pos(), hasFalse && hasTrue, ifs(!(hasFalse && hasTrue), "target.Alive never marks a target dead (or never alive): an unreachable target keeps receiving calls / a recovered one is never used"))
@@ -1351,4 +1353,36 @@ func dependsOn(v, target ssa.Value, depth int) bool {
 		}
 	}
 	return false
+}
+
+// latencyAssignments returns the values target.Update may store into target.latency, each
+// with the instruction whose control dependence decides it: the store itself, or — when the
+// store takes a φ (`latency = …` in every arm, one store at the end) — the end of the
+// predecessor block that contributes the value.
+type latAssign struct {
+	val  ssa.Value
+	site ssa.Instruction
+}
+
+func latencyAssignments(tu *ssa.Function) []latAssign {
+	var out []latAssign
+	eachInstr(tu, func(in ssa.Instruction) {
+		cc, ok := in.(*ssa.Call)
+		if !ok || calleeName(cc) != "sync/atomic.StoreInt64" {
+			return
+		}
+		fr, _, ok := fieldOfAddr(cc.Call.Args[0])
+		if !ok || fr.Field != "latency" {
+			return
+		}
+		if phi, isPhi := cc.Call.Args[1].(*ssa.Phi); isPhi {
+			for i, e := range phi.Edges {
+				pb := phi.Block().Preds[i]
+				out = append(out, latAssign{e, pb.Instrs[len(pb.Instrs)-1]})
+			}
+			return
+		}
+		out = append(out, latAssign{cc.Call.Args[1], in})
+	})
+	return out
 }
